@@ -81,6 +81,25 @@ theorem save_writes_image_state (s : St) (hw : WF s) (im : Img) (hi : s.img = so
 example : ∃ s im, WF s ∧ s.img = some im ∧ im.mapped = true :=
   ⟨(step false ⟨fs0 fun _ => .f32, none⟩ (.load .aImg true)).2, _, (step_safe _ _ (fs0_wf _) rfl).2.1, rfl, by decide⟩
 
+/-- header affine fields edited directly (`img.header.set_sform(B)` …) do not reach the file: the save after the
+    edit writes exactly what the save without the edit writes — the image's own affine (`update_header()` on the
+    image, or on the `from_image` copy for a converting save). -/
+theorem save_ignores_header_affine_edit (s : St) (hw : WF s) (im : Img) (hi : s.img = some im) (q : Path) (k : Nat) :
+    (step false (step false s (.hdrEdit k)).2 (.save q)).1 = (step false s (.save q)).1 ∧
+    (step false (step false s (.hdrEdit k)).2 (.save q)).2.fs = (step false s (.save q)).2.fs ∧
+    ∃ c, (step false s (.save q)).1 = .saved c ∧ c.aff = im.aff := by
+  obtain ⟨fs, img⟩ := s
+  simp only at hi
+  subst hi
+  have hok : ImgOk fs im := hw.2 im rfl
+  have hok' : ImgOk fs { im with hdrAff := k } := ⟨hok.1, hok.2⟩
+  simp only [step, withImg, save_cur hok, save_cur hok']
+  exact ⟨rfl, rfl, _, rfl, rfl⟩
+
+example : ∃ s im, WF s ∧ s.img = some im ∧ im.hdrAff ≠ im.aff :=
+  ⟨(step false (step false ⟨fs0 fun _ => .i16, none⟩ (.load .aNii true)).2 (.hdrEdit 7)).2, _,
+   (step_safe _ _ (step_safe _ _ (fs0_wf _) rfl).2.1 rfl).2.1, rfl, by decide⟩
+
 /-! ### the repaired defect -/
 
 /-- ORIGINAL logic (no copy of the memmap before the target is opened 'wb'): `nib.save(nib.load('a.nii'), 'a.nii')`
